@@ -412,7 +412,9 @@ class DHKey:
         """PKCS #3 shared secret as a string of len(p) bytes (leading zeros kept, as CKM_DH_PKCS_DERIVE specifies)"""
         if not 1 < peer_y < s.p - 1: raise ValueError('peer value out of range')
         return i2osp(pow(peer_y, s.x, s.p), s.k)
-    def pkcs8(s): return der_seq(der_int(0), der_seq(der_oid('1.2.840.113549.1.3.1'), der_seq(der_int(s.p), der_int(s.g))), der_octets(der_int(s.x)))
+    def pkcs8(s, x942=False):
+        """PKCS#3 dhKeyAgreement AlgorithmIdentifier (what OpenSSL writes) or the X9.42 dhpublicnumber OID with (p, g) (what Botan writes)"""
+        return der_seq(der_int(0), der_seq(der_oid('1.2.840.10046.2.1' if x942 else '1.2.840.113549.1.3.1'), der_seq(der_int(s.p), der_int(s.g))), der_octets(der_int(s.x)))
 def modp_prime(bits, c):
     """RFC 2409 / RFC 3526 Oakley primes: p = 2^n - 2^(n-64) - 1 + 2^64 * (floor(2^(n-130) * pi) + c)"""
     prec = bits + 64; one = 1 << prec
@@ -642,7 +644,7 @@ class XKey:
     def pkcs8(s): return der_seq(der_int(0), der_seq(der_oid(XOID[s.kind])), der_octets(der_octets(s.sk)))
 
 # ------------------------------------------------------------------ PKCS#8 (RFC 5208) parse
-_OID_RSA = der_oid('1.2.840.113549.1.1.1'); _OID_EC = der_oid('1.2.840.10045.2.1'); _OID_DSA = der_oid('1.2.840.10040.4.1'); _OID_DH = der_oid('1.2.840.113549.1.3.1')
+_OID_RSA = der_oid('1.2.840.113549.1.1.1'); _OID_EC = der_oid('1.2.840.10045.2.1'); _OID_DSA = der_oid('1.2.840.10040.4.1'); _OID_DH = der_oid('1.2.840.113549.1.3.1'); _OID_DHX = der_oid('1.2.840.10046.2.1')
 def pkcs8_parse(blob, strict=True):
     """-> dict(type=..., fields...) or raises DERError.  RSA, EC (named curve), DSA, DH, Ed25519/Ed448, X25519/X448."""
     top = der_items(der_top(blob, 0x30, strict), strict)
@@ -674,7 +676,7 @@ def pkcs8_parse(blob, strict=True):
         pr = [der_get_int(x) for x in der_items(der_expect(alg[1], 0x30), strict)]
         if len(pr) != 3: raise DERError('DSA parameters')
         return dict(type='dsa', p=pr[0], q=pr[1], g=pr[2], x=der_get_int((2, der_top(key, 2, strict))))
-    if oid == _OID_DH:
+    if oid in (_OID_DH, _OID_DHX):
         if len(alg) < 2: raise DERError('DH parameters')
         pr = [der_get_int(x) for x in der_items(der_expect(alg[1], 0x30), strict)]
         if len(pr) < 2: raise DERError('DH parameters')
